@@ -51,9 +51,8 @@ def shard(idx, n, seed, tier, params):
         occs = L.occurrences(prog, r)
         dead_macros = c16.in_uninvoked_macro(prog)
         in_dead = lambda o: o.get("site") is not None and any(a.uid in dead_macros for a in o["site"].chain())
-        dead_ranges = [(st.marks["stmt"][0], st.marks["stmt"][1] + 1, st.marks["stmt"][3]) for st in prog.all_stmts()
-                       if st.k == "macrodef" and st.bscope.uid in dead_macros and "stmt" in st.marks]
-        in_dead_range = lambda f, ln: any(f == df and l0 <= ln <= l1 for df, l0, l1 in dead_ranges)
+        dead_ranges = L.dead_regions(prog, dead_macros)
+        in_dead_range = lambda f, ln, col: L.in_regions(dead_ranges, f, ln, col)
         by_def = {}
         for o in occs:
             by_def.setdefault(o["target"].uid, []).append(o)
@@ -101,7 +100,7 @@ def shard(idx, n, seed, tier, params):
                 got = set()
                 for uri, edits in changes.items():
                     for e in edits:
-                        if in_dead_range(pr.name_of_uri(uri), e["range"]["start"]["line"]):
+                        if in_dead_range(pr.name_of_uri(uri), e["range"]["start"]["line"], e["range"]["start"]["character"]):
                             acc.count("edits.inside-never-invoked-macro(not judged)")
                             continue
                         got.add((pr.name_of_uri(uri),) + L.rng_tuple(e["range"]))
